@@ -64,6 +64,7 @@ type Exec struct {
 	pure          *pureCtx
 	purePC        Term
 	fidx          map[string]Term
+	zeroT         types.Type     // while a generic callee's contract is applied: its first type argument
 	typesPkg      *types.Package // for lemmas (no function under verification): the package whose names contracts refer to
 	usedContracts map[string]*FnSpec
 	pending       []pendingPath
@@ -1195,6 +1196,7 @@ func (ex *Exec) doReturn(st *State, r *ssa.Return) {
 		return
 	}
 	env := ex.fnEnv(st, ex.entry)
+	env.localsOK = true // postconditions may mention the function's locals (their values at this return); parameters win
 	res := ex.fn.Signature.Results()
 	for i, v := range r.Results {
 		tv := TV{st.val(v), res.At(i).Type()}
@@ -1230,6 +1232,9 @@ func (ex *Exec) doReturn(st *State, r *ssa.Return) {
 
 // initGhosts creates the ghost globals declared in the contract file.
 func (ex *Exec) initGhosts(st *State) {
+	st.ghost["jsonEncCount"] = Sc{intLit(0)}
+	st.ghost["jsonEncTyp"] = Sc{intLit(0)}
+	st.ghost["jsonEncVal"] = Sc{intLit(0)}
 	if ex.cf == nil {
 		return
 	}
